@@ -493,9 +493,22 @@ DurationType = XmlTime | XmlDateTime
 
 def _cmp(a: DurationType, b: DurationType, op: Callable) -> bool:
     if isinstance(b, a.__class__):
-        return op(a.duration, b.duration)
+        return op(_nanoseconds(a), _nanoseconds(b))
 
     return NotImplemented
+
+
+def _nanoseconds(obj: DurationType) -> int:
+    """Return the exact position of the value on the timeline in nanoseconds."""
+    days = 0
+    if isinstance(obj, XmlDateTime):
+        # The gregorian calendar repeats itself every 400 years or 146097 days
+        cycles, year = divmod(obj.year, 400)
+        start = datetime.date(year + 400, obj.month, 1).toordinal()
+        days = cycles * 146097 + start + obj.day - 1
+
+    minutes = (days * 24 + obj.hour) * 60 + obj.minute - (obj.offset or 0)
+    return (minutes * 60 + obj.second) * 1_000_000_000 + obj.fractional_second
 
 
 class TimeInterval(NamedTuple):
